@@ -1,6 +1,6 @@
 """Per-property claim texts for MANIFEST.json (see tools/gen_manifest.py)."""
 
-HOOK_COMMITS = ["1decc3f", "ccd7906"]
+HOOK_COMMITS = ["1decc3f", "ccd7906", "6f54a9a"]
 
 ENGINES = [
     {"name": "sql-smt", "path": "/verif/bin/sqlsmt.py", "serves_properties": ["C24"],
